@@ -4,6 +4,7 @@
 #include <asam_cmp/tecmp_decoder.h>
 
 #include "engines/wire_common.h"
+#include "ref/captures.h"
 
 static std::string readCase(const std::string& path)
 {
@@ -1282,6 +1283,42 @@ int main(int argc, char** argv)
                           });
                       });
         }
+        {
+            // reassembly across the 64 KiB boundary: all segment-size sequences F(a) [I(b)] L(c) over a size set
+            static const size_t sizes[] = {0, 1, 1000, 25536, 30000, 40000, 65519, 65520, 65535};
+            const size_t ns = sizeof sizes / sizeof sizes[0];
+            run.round("histories: reassembly F(a) [I(b)] L(c) for all segment sizes from {0,1,1000,25536,30000,40000,65519,65520,65535} (totals cross 64 KiB)", ns * ns,
+                      [&](W& w, uint64_t o) {
+                          size_t a = sizes[o / ns], c3 = sizes[o % ns];
+                          for (size_t bi = 0; bi <= ns; ++bi)
+                          {
+                              std::vector<Buf> h;
+                              uint16_t seq = 65534;
+                              auto segFrame = [&](uint8_t seg, size_t len, uint8_t fill) {
+                                  ref::FrameHdr fh;
+                                  fh.device = 5; fh.stream = 6; fh.seq = seq++;
+                                  ref::MsgHdr mh;
+                                  mh.ts = 3; mh.idword = 4; mh.flags = (uint8_t) (seg << 2); mh.ptype = 0xFE; mh.plen = (uint16_t) len;
+                                  Buf b;
+                                  ref::putFrameHdr(b.base, fh);
+                                  ref::putMsgHdr(b.base, mh);
+                                  b.extByte = fill;
+                                  b.extCount = len;
+                                  return b;
+                              };
+                              h.push_back(segFrame(ref::SEG_FIRST, a, 0xA1));
+                              if (bi < ns)
+                                  h.push_back(segFrame(ref::SEG_MID, sizes[bi], 0xB2));
+                              h.push_back(segFrame(ref::SEG_LAST, c3, 0xC3));
+                              auto desc = [&] { return showHist(0, h); };
+                              if (!w.begin_case(desc))
+                                  continue;
+                              judgeC02(w, 0, h);
+                              w.add(mc::C_TRACES, 1);
+                              w.add(mc::C_STATES, h.size());
+                          }
+                      });
+        }
         run.round("histories: all ordered pairs of the sub-corpus on one decoder", ctx.sub.size(), [&](W& w, uint64_t o) {
             for (size_t j = 0; j < ctx.sub.size(); ++j)
             {
@@ -1397,6 +1434,31 @@ int main(int argc, char** argv)
         };
         if (!opt.case_file.empty())
             return run.run_single(readCase(opt.case_file));
+        // ground truth: the Wireshark captures embedded in the repository's tests, parsed by the independent
+        // parser, must yield the values the suite asserts (oracle self-check), then the library is judged on them
+        run.round("ground truth: Wireshark captures from tests/test_tecmp_decoder.cpp", 3, [&](W& w, uint64_t o) {
+            const Bytes& f = o == 0 ? captures::kDecodeCaptureModulePayload : (o == 1 ? captures::kDecodeInterfacePayload : captures::kDecodeCanFdPayload);
+            auto desc = [&] { return "f=" + mc::hex(f); };
+            if (!w.begin_case(desc))
+                return;
+            TExp e = expectTecmp(f);
+            bool ok = e.judged && !e.none && e.device == 0x43;
+            if (o == 0)
+                ok = ok && e.kind == 'M' && e.ts == 0x0000006114b53de0ull && e.serial == 23140065u && e.sw[0] == 20 && e.sw[1] == 7 && e.sw[2] == 10 && e.hw[0] == 3 && e.hw[1] == 3;
+            else if (o == 1)
+            {
+                ok = ok && e.kind == 'B' && e.entries.size() == 9;
+                for (size_t i = 0; ok && i < 9; ++i)
+                    ok = e.entries[i].ifid == 0x10 * (i + 1);
+            }
+            else
+                ok = ok && e.kind == 'C' && e.ifid == 0x20 && e.arbId == 0x321 && e.data.size() == 16;
+            if (!ok)
+                w.fail("oracle-self-check:independent-tecmp-parser-disagrees-with-wireshark-capture", fmt("capture %d", (int) o));
+            judgeC15(w, f);
+            w.add(mc::C_TRACES, 1);
+            w.add(mc::C_STATES, 1);
+        });
         auto tt = tecmpTasks(thorough, false);
         for (char part : {'C', 'L', 'M', 'B', 'X', 'D'})
         {
